@@ -106,6 +106,14 @@ Section C06.
        (is_current c && chg = false -> In i (st_pending s'))).
   Proof. exact (phase_update_flapping A eqb eqb_spec). Qed.
 
+  (* a pending object whose new observation satisfies the condition is
+     reported reconciled by that very update (from any state) *)
+  Theorem C06_pending_reconciles : forall ids c s i o,
+    In i (st_pending s) ->
+    cond_met A eqb c (st_table s) (cache_put eqb (st_cache s) i o) i = true ->
+    snd (step eqb c ids s (Update i o)) = [(i, WSuccessful)].
+  Proof. exact (step_pending_reconciles A eqb eqb_spec). Qed.
+
   (* ---- 5. timeout -------------------------------------------------------------- *)
   Theorem C06_timeout_exact : forall c ids s,
     (st_done s = false ->
@@ -209,6 +217,7 @@ Print Assumptions C06_done_complete.
 Print Assumptions C06_skipped.
 Print Assumptions C06_skipped_actuation.
 Print Assumptions C06_flapping.
+Print Assumptions C06_pending_reconciles.
 Print Assumptions C06_timeout_exact.
 Print Assumptions C06_pending_exact.
 Print Assumptions C06_last_event.
